@@ -264,6 +264,43 @@ func (c *Ctx) checkDispatchGate(r *Report, match *ssa.Function) {
 			if ok {
 				cell, _ = u.X.(*ssa.Alloc)
 			}
+			// the selection may live in an unexported helper that returns the selected callback
+			if cell == nil {
+				v := g.Common().Value
+				if lu, isLoad := v.(*ssa.UnOp); isLoad {
+					if a, isAlloc := lu.X.(*ssa.Alloc); isAlloc {
+						v = c.storedValue(a)
+					}
+				}
+				if call, isCall := v.(*ssa.Call); isCall {
+					if h := staticCallee(&call.Call); h != nil && h.Blocks != nil && fnPkgPath(h) == pkClient && h.Object() != nil && !h.Object().Exported() {
+						var cand *ssa.Alloc
+						nRet, okRet := 0, true
+						allInstrs(h, func(j ssa.Instruction) {
+							ret, isRet := j.(*ssa.Return)
+							if !isRet || len(ret.Results) != 1 {
+								return
+							}
+							nRet++
+							lu, isLoad := ret.Results[0].(*ssa.UnOp)
+							if !isLoad {
+								okRet = false
+								return
+							}
+							a, isAlloc := lu.X.(*ssa.Alloc)
+							if !isAlloc || (cand != nil && cand != a) {
+								okRet = false
+								return
+							}
+							cand = a
+						})
+						if nRet > 0 && okRet && cand != nil {
+							cell = cand
+							f = h
+						}
+					}
+				}
+			}
 			if cell == nil {
 				r.undecided("R1", key, c.instrPos(i), "cannot find the variable holding the selected callback")
 				return
@@ -452,29 +489,49 @@ func (c *Ctx) checkRouteKeys(r *Report) {
 	}
 	r.fn(storeFn)
 	r.fn(deleteFn)
-	keyFn := func(f *ssa.Function, lib string) (*ssa.Function, ssa.Value) {
-		var g *ssa.Function
-		var arg ssa.Value
+	// the key expression: strings.Join(route, sep) written in place or wrapped in a helper of the package
+	keyFn := func(f *ssa.Function, lib string) (id, sep string, arg ssa.Value, pos ssa.Instruction) {
 		allInstrs(f, func(i ssa.Instruction) {
-			if ci, ok := i.(ssa.CallInstruction); ok && calleeName(ci.Common()) == lib {
-				if call, ok := ci.Common().Args[1].(*ssa.MakeInterface); ok {
-					if kc, ok := call.X.(*ssa.Call); ok {
-						g = staticCallee(&kc.Call)
-						arg = kc.Call.Args[0]
-					}
+			ci, ok := i.(ssa.CallInstruction)
+			if !ok || calleeName(ci.Common()) != lib {
+				return
+			}
+			mi, ok := ci.Common().Args[1].(*ssa.MakeInterface)
+			if !ok {
+				return
+			}
+			kc, ok := mi.X.(*ssa.Call)
+			if !ok || len(kc.Call.Args) == 0 {
+				return
+			}
+			pos = i
+			arg = kc.Call.Args[0]
+			if calleeName(&kc.Call) == "strings.Join" && len(kc.Call.Args) == 2 {
+				id = "strings.Join"
+				sep, _ = constString(kc.Call.Args[1])
+				return
+			}
+			if g := staticCallee(&kc.Call); g != nil && g.Blocks != nil {
+				r.fn(g)
+				if sp, ok := sepOf(g, "strings.Join"); ok {
+					id, sep = "strings.Join", sp
+				} else {
+					id = fnKey(g)
 				}
 			}
 		})
-		return g, arg
+		return
 	}
-	ks, sa := keyFn(storeFn, "(*sync.Map).Store")
-	kd, da := keyFn(deleteFn, "(*sync.Map).Delete")
-	sameKey := ks != nil && ks == kd && sa == ssa.Value(storeFn.Params[1]) && da == ssa.Value(deleteFn.Params[1])
+	ki, ssep, sa, spos := keyFn(storeFn, "(*sync.Map).Store")
+	di, dsep, da, _ := keyFn(deleteFn, "(*sync.Map).Delete")
+	sameKey := ki != "" && ki == di && ssep == dsep && sa == ssa.Value(storeFn.Params[1]) && da == ssa.Value(deleteFn.Params[1])
 	r.cond(sameKey, "R2", "handler-map:key-function", c.pos(storeFn.Pos()), "store and delete key the map with the same function of their route argument", "store and delete compute the handler-map key differently: an unsubscribe does not remove what subscribe stored")
-	if ks != nil {
-		r.fn(ks)
-		sep, ok := sepOf(ks, "strings.Join")
-		r.cond(ok && sep == "/", "R2", fnKey(ks)+":is-strings.Join", c.pos(ks.Pos()), "key = strings.Join(route, \"/\") (injective on routes produced by strings.Split(name, \"/\"))", "the handler-map key is not strings.Join(route, \"/\"): different filters (e.g. with empty levels) can collapse to one key and overwrite / delete each other")
+	if ki != "" {
+		p := c.pos(storeFn.Pos())
+		if spos != nil {
+			p = c.instrPos(spos)
+		}
+		r.cond(ki == "strings.Join" && ssep == "/", "R2", "handler-map:key-is-strings.Join", p, "key = strings.Join(route, \"/\") (injective on routes produced by strings.Split(name, \"/\"))", "the handler-map key is not strings.Join(route, \"/\"): different filters (e.g. with empty levels) can collapse to one key and overwrite / delete each other")
 	}
 	// stored handler keeps the same route it is keyed by
 	routeStored := false
@@ -729,6 +786,11 @@ func (c *Ctx) checkSleepTimers(r *Report, m *gwModel) {
 			armed := hasEventPrefix(o, "time.AfterFunc")
 			done := hasEventPrefix(o, "tx.Fail") || hasEventPrefix(o, "tx.Success")
 			errRet := len(o.Ret) > 0 && retIsError(o)
+			// a path that touches nothing (an out-of-turn packet that is logged and ignored) leaves whatever
+			// timer was armed before in place
+			if len(o.Events) == 0 {
+				continue
+			}
 			if !armed && !done && !errRet {
 				okc, detail = false, "a path leaves the sleep transaction waiting with no timer armed: "+strings.Join(o.Events, " ; ")
 			}
